@@ -35,9 +35,14 @@ def handleParFor (toks : List String) : Option String := do
 def handleModal (toks : List String) : Option String := do
   let keys ← argNats toks "keys"; let freqs ← argInts toks "freqs"
   if keys.length ≠ freqs.length then none
-  match findModalClass (keys.zip freqs) with
+  let m := keys.zip freqs
+  match findModalClass m with
   | none => some "panic"
-  | some k => some s!"ok {k}"
+  | some k =>
+    -- the statement promises no particular tie-break: with tied maxima only the frequency of the
+    -- returned class is compared
+    let f := ((m.find? (·.1 == k)).map (·.2)).getD (-1)
+    if (m.filter (·.2 == f)).length > 1 then some s!"ok tie max={f}" else some s!"ok {k}"
 
 /-- `nbargmax classes= jll=` (`jll[c][i]`, f64 bit patterns) -/
 def handleNb (toks : List String) : Option String := do
@@ -48,9 +53,15 @@ def handleNb (toks : List String) : Option String := do
   if classes.length ≠ jll.length then none
   let n := match jll with | [] => 0 | r :: _ => r.length
   if jll.any (·.length ≠ n) then none
-  match nbPredict (classes.zip jll) n with
+  let tbl := classes.zip jll
+  match nbPredict tbl n with
   | none => some "panic"
-  | some ps => some s!"ok {showNats ps}"
+  | some ps =>
+    -- a sample whose maximum is attained by several classes is shown as `t` (any of them is allowed)
+    let toks := ps.zipIdx.map fun (c, i) =>
+      let v := (((tbl.find? (·.1 == c)).map (·.2)).getD []).getD i 0
+      if (tbl.filter fun e => e.2.getD i 0 == v).length > 1 then "t" else toString c
+    some s!"ok {",".intercalate toks}"
 
 /-- `labels t= a=<rows> b=<single column>`: rows of a `t`-column target matrix -/
 def handleLabels (toks : List String) : Option String := do
